@@ -82,7 +82,24 @@ def v_assume(ex, fr, st, args, ins):
             raise PathDead()
         return None
     st.pc = st.pc + (c,)
+    _mirror_assume(ex, c)
     return None
+
+
+def _mirror_assume(ex, c):
+    """integer (dis)equalities on linear count forms are mirrored on the real cut variables, so that
+    real-arithmetic queries see harness assumptions such as ones != 0"""
+    import vals as _v
+    if z3.is_and(c):
+        for ch in c.children():
+            _mirror_assume(ex, ch)
+        return
+    neg = z3.is_not(c)
+    inner = c.arg(0) if neg else c
+    info = _v._guard_info.get(inner.get_id())
+    if info is not None and info[0] == 'eqz':
+        t = ex.fc.cut(info[1])
+        ex.fc.real_assumes.append(t != 0 if neg else t == 0)
 
 
 def v_assert(ex, fr, st, args, ins):
@@ -122,6 +139,12 @@ HARNESS = {
 def uf1(name):
     def h(ex, fr, st, args, ins):
         x = force(args[0])
+        if isinstance(x, float) and name in ('erfc', 'erf'):
+            # concrete argument: evaluated with the C library (differs from Go's pure-Go version by ulps only)
+            ex.notes.add('erfc/erf on concrete arguments evaluated with libm')
+            if math.isnan(x):
+                return x
+            return math.erfc(x) if name == 'erfc' else math.erf(x)
         f = ex.fc.uf(name, 1)
         return FReal(f(to_real(ex.fc, x)))
     return h
